@@ -216,6 +216,14 @@ def _real_cfg():
     return cfg
 
 
+def _no_dates(out: bytes) -> bytes:
+    """directory timestamps are outside the property (the server's own cache files touch them)"""
+    import re
+
+    out = re.sub(rb"Last-Modified: [^\r\n]*\r\n", b"", out)
+    return re.sub(rb" Mod-Date: [^\r\n]*\r\n", b"", out)
+
+
 def _real_request(req, cfg, reset):
     import traceback
 
@@ -229,7 +237,7 @@ def _real_request(req, cfg, reset):
         hx.reset_lazies()
     w = hx.ListWriter()
     hx.make_request_handler(hx.BytesReader(req), w, cfg).handle()
-    return w.getvalue()
+    return _no_dates(w.getvalue())
 
 
 def _warm():
@@ -248,12 +256,15 @@ def _warm():
     finally:
         os.chdir(cwd)
     out = {}
-    for r in REAL_REQS:
+    for r in reversed(REAL_REQS):
         out[r] = _real_request(r, cfg, True)
-    return out
+    fwd = {}
+    for r in REAL_REQS:
+        fwd[r] = _real_request(r, cfg, True)
+    return out, fwd
 
 
-FRESH = _warm()
+FRESH, FRESH_FWD = _warm()
 import harness.C20 as _c20  # shelve snapshot helper
 
 _c20._snapshot_shelves()
@@ -283,6 +294,16 @@ def body_history(r1: int, r2: int) -> bool:
     hx.require(gopherentry.mapping is None or gopherentry.mapping == eval(cfg.get("GopherEntry", "mapping")), "C03:lazy-table-mutated:gopherentry.mapping", "")
     hx.require(gopherentry.eaexts is None or gopherentry.eaexts == eval(cfg.get("GopherEntry", "eaexts")), "C03:lazy-table-mutated:gopherentry.eaexts", "")
     hx.require(UMN.extstrip in (None, cfg.get("handlers.UMN.UMNDirHandler", "extstrip")), "C03:lazy-table-mutated:UMN.extstrip", "")
+    return True
+
+
+def body_order_independent(i: int) -> bool:
+    """The reply to request i is the same whether the other requests of the scenario list were served
+    before it or after it (both sweeps run in one process when this module is loaded)."""
+    r = REAL_REQS[i]
+    hx.reach()
+    hx.require(FRESH[r] == FRESH_FWD[r], "C03:response-depends-on-earlier-request",
+               lambda: "reply to %r differs between the two sweeps: %r vs %r" % (r, FRESH[r][:160], FRESH_FWD[r][:160]))
     return True
 
 
@@ -475,6 +496,9 @@ def obligations(tier, seed):
                       pre=["kind == %d" % ki, "0 <= sidx < %d" % len(MSG_SELS)], timeout=240,
                       desc="mailbox/Maildir message selectors (in range, past the end, zero, negative, malformed; existing, missing and wrong-kind mailboxes) via %s on the real testdata" % KINDS[ki],
                       bounds="%d selectors (symbolic index = solver-driven enumeration)" % len(MSG_SELS), functions=["pygopherd.handlers.mbox.*"]))
+    obs.append(Ob(id="C03.6b-order-independent", body="harness.C03:body_order_independent", sig="i: int", pre=["0 <= i < %d" % len(REAL_REQS)], timeout=120,
+                  desc="each scenario request gets the same reply in a forward and in a reverse sweep over all scenario requests in one process (process-wide state such as the environment, module tables, class attributes)",
+                  bounds="%d requests, two sweeps (run at import; index symbolic)" % len(REAL_REQS), functions=["whole request path"]))
     r1s = range(len(REAL_REQS)) if tier == "thorough" else [3, 4, 0, 8, 9, 13, 15]
     for r1 in r1s:
         obs.append(Ob(id="C03.6-history[%d:%s]" % (r1, REAL_REQS[r1].split(b"\r")[0].decode()), body="harness.C03:body_history", sig="r1: int, r2: int",
